@@ -64,6 +64,12 @@ where
 fn main() {
     vmon::panics::install();
     let args = parse_args();
+    if args.engine == "c18-serve" {
+        // child side of c18-proc: a server process the parent engine attacks
+        let mode = args.extra.first().map(|s| s.as_str()).unwrap_or("det");
+        let body_max = args.extra.get(1).and_then(|s| s.parse().ok()).unwrap_or(4096);
+        std::process::exit(vmon::c18proc::serve(mode, body_max));
+    }
     let t0 = std::time::Instant::now();
     let quick = args.tier != "thorough";
     // tiny volumes for the Miri interpreter (E6); socket-free engines only
@@ -159,6 +165,7 @@ fn main() {
             };
             vmon::c18::run(seed, &w)
         }
+        "c18-proc" => vmon::c18proc::run(seed, quick),
         "c05-exhaustive" => {
             let ns = n as u64;
             sharded(n, move |s| vmon::c05::run_exhaustive(s, ns))
